@@ -515,6 +515,15 @@ def model_line(case, obj, pred, L):
     if hasattr(obj, "_reverse_mapping"):
         book = {"n": obj.num_binary_variables,
                 "rm": [[int(i), L.ident(l)] for i, l in obj._reverse_mapping.items()]}
+    if case["via"] == "method":
+        # the model decides itself which free function the type's method calls and what `is_solution_valid` is
+        # (Brute.methodPlain / Brute.methodCons — the functions the entry-point theorems are about); it is handed the
+        # attributes the code reads, incl. the recorded constraints of a PCBO / PCSO
+        line = {"op": "brute_method", "kind": case["kind"], "terms": terms, "book": book, "all": case["all"]}
+        if getattr(obj, "constraints", None):
+            line["cons_rec"] = [[rel, [[[L.ident(l) for l in k], fs(v)] for k, v in P.items()]]
+                                for rel, Ps in obj.constraints.items() for P in Ps]
+        return line
     return {"op": "brute", "fn": case["fn"], "kind": case["kind"], "terms": terms, "book": book,
             "all": case["all"], "valid": pred}
 
